@@ -3,6 +3,7 @@
 Monitor shape: metamorphic (before/after) over the real simplify_ast with the
 independent walker of vf.treewalk as oracle; all flag valuations per tree."""
 import itertools
+import json
 import random
 
 from vf.runner import CaseTimeout, case_alarm
@@ -138,7 +139,9 @@ def flags_of(tree, acc=None):
     return acc
 
 
-def build(tree, leafmode, counter=None):
+def build(tree, leafmode, counter=None, share=None):
+    """share: a dict -> conditionals with the same description are ONE node object wherever they occur (an AST is
+    an immutable value; a caller may well hang one 'if' node into two places)."""
     from dagrt.codegen import dag_ast as A
     from dagrt.language import Nop
     from pymbolic import var
@@ -162,19 +165,34 @@ def build(tree, leafmode, counter=None):
     if k == "N":
         return A.NullASTNode()
     if k == "B":
-        return A.Block(*[build(s, leafmode, counter) for s in tree[1:]])
+        return A.Block(*[build(s, leafmode, counter, share) for s in tree[1:]])
+    key = None
+    if share is not None:
+        key = json.dumps(tree)
+        if key in share:
+            return share[key]
     if k == "I":
-        return A.IfThen(cond(tree[1]), build(tree[2], leafmode, counter))
-    return A.IfThenElse(cond(tree[1]), build(tree[2], leafmode, counter),
-                        build(tree[3], leafmode, counter))
+        node = A.IfThen(cond(tree[1]), build(tree[2], leafmode, counter, share))
+    else:
+        node = A.IfThenElse(cond(tree[1]), build(tree[2], leafmode, counter, share),
+                            build(tree[3], leafmode, counter, share))
+    if share is not None:
+        share[key] = node
+    return node
 
 
-def check_tree(tree, leafmode, rec, hang_s=20.0):
+def check_tree(tree, leafmode, rec, hang_s=20.0, shared=False):
     """Returns True if evaluated."""
     from dagrt.codegen.dag_ast import simplify_ast
     from vf.treewalk import leaf_trace
-    ast = build(tree, leafmode)
-    wit = {"tree": tree, "leafmode": leafmode}
+    ast = build(tree, leafmode, share={} if shared else None)
+    wit = {"tree": tree, "leafmode": leafmode, "shared": shared}
+    flags = sorted(flags_of(tree))
+    valuations = [{"<cond>" + f: b for f, b in zip(flags, bits)}
+                  for bits in itertools.product([False, True], repeat=len(flags))]
+    wants = [leaf_trace(ast, val) for val in valuations]      # (before the call: the input is a value)
+    if shared:
+        rec.count("trees_with_shared_node_objects")
     try:
         with case_alarm(hang_s):
             out = simplify_ast(ast)
@@ -186,11 +204,10 @@ def check_tree(tree, leafmode, rec, hang_s=20.0):
         rec.violation(f"exception-{type(e).__name__}",
                       f"simplify_ast raised {type(e).__name__}: {e}", wit)
         return True
-    flags = sorted(flags_of(tree))
     rec.count("trees")
-    for bits in itertools.product([False, True], repeat=len(flags)):
-        val = {"<cond>" + f: b for f, b in zip(flags, bits)}
-        want = leaf_trace(ast, val)
+    for val, want in zip(valuations, wants):
+        if leaf_trace(ast, val) != want:
+            rec.count("input_tree_runs_differently_after_the_call")     # (not judged: 'the original' is what went in)
         try:
             got = leaf_trace(out, val)
         except Exception as e:
@@ -227,7 +244,7 @@ def run_shard(shard, rec):
                     continue
                 ni, nl = count_nodes(tree)
                 leafmode = "stmt" if idx % 3 else "int"
-                check_tree(tree, leafmode, rec)
+                check_tree(tree, leafmode, rec, shared=(idx % 4 == 1))
                 # the small condition pool is a subset of the full one: only
                 # count what the first enumeration did not already produce
                 fresh = conds is CONDS or used > shard["bound"]
@@ -243,14 +260,14 @@ def run_shard(shard, rec):
             ni, nl = count_nodes(tree)
             if nl > 24:
                 continue
-            check_tree(tree, rng.choice(["stmt", "int"]), rec)
+            check_tree(tree, rng.choice(["stmt", "int"]), rec, shared=rng.random() < 0.35)
             # only trees outside the exhaustively enumerated space count as distinct
             rec.case(tree, nontrivial=(ni > 4 and nl >= 1))
             rec.count("random_trees")
 
 
 def replay(witness, rec):
-    check_tree(witness["tree"], witness.get("leafmode", "stmt"), rec)
+    check_tree(witness["tree"], witness.get("leafmode", "stmt"), rec, shared=witness.get("shared", False))
     rec.case(witness["tree"])
 
 
